@@ -447,7 +447,7 @@ structure IsoE (w D : WorldE) (σ : Nat → Nat) : Prop where
     consistent; and `D` serializes to the SAME proto — in particular the device configurations of every node are
     written again as they were (sharding values are preserved BY NAME: the reloaded spec refers to the value the
     name resolves to at the node).
-    Sharding values BY IDENTITY: `C03_roundtrip_ext_devices`; models with FUNCTIONS: `C03_roundtrip_ext_partial`;
+    Sharding values BY IDENTITY: `C03_roundtrip_ext_devices`; models with FUNCTIONS: `C03_roundtrip_ext_model`;
     function ATTRIBUTES are covered by `C03_meta_roundtrip`. -/
 theorem C03_roundtrip_ext_graph (ver : Option Int) (w : WorldE) (h : ReloadableE w) :
     (∃ e, serializeE ver w = .error (.dev e)) ∨
@@ -538,7 +538,7 @@ structure IsoME (w D : MWorldE) (σ : Nat → Nat) : Prop where
   vmeta : ∀ v ∈ emitM w.core, D.ext.vmeta (σ v) = ssSorted (w.ext.vmeta v)
   quant : ∀ v ∈ emitQM w, D.ext.quant (σ v) = (w.ext.quant v).map ssSorted
 
-/-- **C03_roundtrip_ext_partial** (deepening round 5): IR -> proto -> IR for extended models WITH FUNCTIONS
+/-- **C03_roundtrip_ext_model** (deepening round 5): IR -> proto -> IR for extended models WITH FUNCTIONS
     (`MWorldE`; `serializeME` / `deserializeME`, IR version >= 10 format): main graph, nested graphs and function
     bodies.  Hypothesis `ReloadableME`: `ReloadableM` of the core, `extG` of the main graph, `extF` of every function
     (equally truthy-named function inputs carry the same merged metadata - they share ONE value_info entry; the node
@@ -548,10 +548,8 @@ structure IsoME (w D : MWorldE) (σ : Nat → Nat) : Prop where
     up to `σ` (`IsoM`), merged metadata of every emitted value (function inputs and node outputs included) sorted by
     key, annotations sorted by key - and `D` serializes to the SAME proto (so the device configurations of every
     node, in function bodies too, are written again as they were: sharding values BY NAME).
-    MISSING for the full `C03_roundtrip_ext`: sharding values BY IDENTITY inside FUNCTION bodies and at model level
-    (`DevIsoG` is proved for the main graph and its nested graphs: `C03_roundtrip_ext_devices`; the function
-    lock-step `rtE_func` does not export the device trace yet).  Function attributes: `C03_meta_roundtrip`. -/
-theorem C03_roundtrip_ext_partial (ver : Option Int) (w : MWorldE) (h : ReloadableME w) :
+    Sharding values BY IDENTITY, function bodies included: `C03_roundtrip_ext`.  Function attributes: `C03_meta_roundtrip`. -/
+theorem C03_roundtrip_ext_model (ver : Option Int) (w : MWorldE) (h : ReloadableME w) :
     (∃ e, serializeME ver w = .error (.dev e)) ∨
     ∃ (w1 : MWorldE) (Q : ModelE) (D : MWorldE) (σ : Nat → Nat) (w2 : MWorldE),
       serializeME ver w = .ok (w1, Q) ∧ deserializeME Q = .ok D ∧ IsoME w D σ ∧ serializeME ver D = .ok (w2, Q) := by
@@ -569,6 +567,50 @@ theorem C03_roundtrip_ext_partial (ver : Option Int) (w : MWorldE) (h : Reloadab
       exact normM_eq _ (hwf v).1
     · intro v hv
       rw [a8 v hv]
+      cases hqv : w.ext.quant v with
+      | none => rfl
+      | some ps =>
+        simp only [normQ, Option.map_some]
+        rw [ss_rt ps ((hwf v).2 ps hqv).1]
+  · exact .inl ⟨e, he⟩
+
+/-- **C03_roundtrip_ext** (deepening round 5; the full statement for the extended model): IR -> proto -> IR for
+    models with functions preserves value metadata, quantization annotations AND the sharding values of node device
+    configurations BY IDENTITY, in the main graph, nested graphs and function bodies.  Hypotheses: the IR-version
+    gate is open (`ver = none` or `>= 11`; below, device configurations are not written and `C03_roundtrip_ext_model`
+    is the statement), `ReloadableME w` and `DevCertM w` (every sharding value carries a non-empty name and is what
+    that name resolves to in the scopes visible at its node; in a function body the function's own scope) — both
+    hold of every model `deserializeME` returns (`deserializeME_reloadableME`, `deserializeME_devCert`).  Then
+    serialization raises in a device configuration (no configuration id / a spec without value), or the reloaded
+    model `D` satisfies `IsoME w D σ` and `DevIsoM`: every node of `D` carries the configurations of its source
+    node with each sharding value `v` replaced by `σ v`; and `D` serializes to the same proto. -/
+theorem C03_roundtrip_ext (ver : Option Int) (hgate : ver = none ∨ ∃ v, ver = some v ∧ ¬ v < 11) (w : MWorldE)
+    (h : ReloadableME w) (hdc : DevCertM w) :
+    (∃ e, serializeME ver w = .error (.dev e)) ∨
+    ∃ (w1 : MWorldE) (Q : ModelE) (D : MWorldE) (σ : Nat → Nat) (w2 : MWorldE),
+      serializeME ver w = .ok (w1, Q) ∧ deserializeME Q = .ok D ∧ IsoME w D σ ∧ DevIsoM w.ext D.ext σ w D ∧
+      serializeME ver D = .ok (w2, Q) := by
+  rcases reloadableME_ser ver w h with ⟨w1, Q, hs⟩ | ⟨e, he⟩
+  · obtain ⟨D, B, hD, hrs, hk, ht, htf, hio, hco, hm, hq, hdi⟩ := reloadableME_roundtrip_devs ver hgate w h hdc w1 Q hs
+    obtain ⟨D', w2, hD', hq'⟩ := reloadableME_fixpoint ver w h w1 Q hs
+    have hDD : D' = D := by
+      rw [hD] at hD'
+      exact (Except.ok.inj hD').symm
+    subst hDD
+    obtain ⟨_, _, _, hwf⟩ := h
+    have hkeys : ∀ v ∈ domM w.core, v ∈ B.map (·.1) := fun v hv => hk ▸ hv
+    refine .inr ⟨w1, Q, D', sig B, w2, hs, hD, ⟨⟨TreeRelG.iso _ B _ _ ht, TreeRelFs.iso _ B _ _ htf,
+      fun a ha b hb he => hrs.sig_inj (hkeys a ha) (hkeys b hb) he,
+      fun v hv => hrs.sig_name (hkeys v hv), fun v hv => (hio v hv).2,
+      fun kv hkv t htc => by
+        obtain ⟨_, _, hc⟩ := hco kv hkv
+        obtain ⟨t', h1, _, h3, h4⟩ := hc t htc
+        exact ⟨t', h1, h3, h4⟩⟩, ?_, ?_⟩, hdi, hq'⟩
+    · intro v hv
+      rw [(hm v hv).2]
+      exact normM_eq _ (hwf v).1
+    · intro v hv
+      rw [(hq v hv).2]
       cases hqv : w.ext.quant v with
       | none => rfl
       | some ps =>
